@@ -28,8 +28,9 @@ VARIABLES isOpen, gen, mu, tokS, tokG, under, fault, rl, pend, pc, closeCh, user
           mlog,        \* FTransportMonitor callbacks made so far
           told, closes,
           failsLeft,   \* environment: how many of the next underlying Open() calls fail
+          closeFails,  \* environment: the user's pending underlying Close() fails
           abs          \* LifeAbs state (history variable)
-vars == <<isOpen, gen, mu, tokS, tokG, under, fault, rl, pend, pc, closeCh, userRes, spurious, monSig, mon, attempts, wait, mlog, told, closes, failsLeft, abs>>
+vars == <<isOpen, gen, mu, tokS, tokG, under, fault, rl, pend, pc, closeCh, userRes, spurious, monSig, mon, attempts, wait, mlog, told, closes, failsLeft, closeFails, abs>>
 lifevars == <<isOpen, gen, mu, tokS, tokG, under, fault, rl, pend, pc, closeCh, userRes, spurious>>
 monvars == <<monSig, mon, attempts, wait, mlog, told, failsLeft>>
 
@@ -39,7 +40,7 @@ Init == /\ isOpen = FALSE /\ gen = 0 /\ mu = FREE /\ tokS = 0 /\ tokG = [g \in G
         /\ pc = [p \in Closers |-> "out"] /\ closeCh = [g \in Gens |-> <<>>]
         /\ userRes = "none" /\ spurious = FALSE
         /\ monSig = <<>> /\ mon = (IF WithMonitor THEN "wait" ELSE "done") /\ attempts = 0 /\ wait = 0 /\ mlog = <<>>
-        /\ told = 0 /\ closes = 0 /\ failsLeft = 0 /\ abs = L!AbsInit
+        /\ told = 0 /\ closes = 0 /\ failsLeft = 0 /\ closeFails = FALSE /\ abs = L!AbsInit
 CauseOf(p) == IF p = USER THEN "nil" ELSE L!Cause(fault[p])
 
 LoopBusy(g) == \/ rl[g] \in {"started", "goterr", "willclose"} \/ pc[g] # "out"
@@ -58,11 +59,11 @@ UOpen == /\ MayStep /\ pc[USER] = "out" /\ mu = FREE /\ UserMayOpen
          /\ IF isOpen THEN userRes' = "ALREADY_OPEN" /\ UNCHANGED <<isOpen, gen, under, rl>>
                       ELSE DoOpen /\ userRes' = "ok"
          /\ abs' = L!AbsOpen(abs)
-         /\ UNCHANGED <<mu, tokS, tokG, fault, pend, pc, closeCh, spurious, closes>> /\ UNCHANGED monvars
+         /\ UNCHANGED <<mu, tokS, tokG, fault, pend, pc, closeCh, spurious, closes>> /\ UNCHANGED monvars /\ UNCHANGED closeFails
 \* the underlying Open() fails: nothing changes
 UOpenFail == /\ MayStep /\ pc[USER] = "out" /\ mu = FREE /\ UserMayOpen
              /\ userRes' = (IF isOpen THEN "ALREADY_OPEN" ELSE "openerr") /\ abs' = L!AbsOpenFail(abs)
-             /\ UNCHANGED <<isOpen, gen, mu, tokS, tokG, under, fault, rl, pend, pc, closeCh, spurious, closes>> /\ UNCHANGED monvars
+             /\ UNCHANGED <<isOpen, gen, mu, tokS, tokG, under, fault, rl, pend, pc, closeCh, spurious, closes>> /\ UNCHANGED monvars /\ UNCHANGED closeFails
 
 \* close(cause): enter under f.mu, push the close token (may block!), close the underlying transport, publish
 CloseEnter(p) ==
@@ -78,10 +79,10 @@ ClosePush(p) ==
   /\ IF CloseSignal = "shared" THEN tokS < 1 /\ tokS' = tokS + 1 /\ UNCHANGED tokG
                                ELSE tokG[gen] < 1 /\ tokG' = [tokG EXCEPT ![gen] = 1] /\ UNCHANGED tokS
   /\ pc' = [pc EXCEPT ![p] = "under"]
-  /\ UNCHANGED <<isOpen, gen, mu, under, fault, rl, pend, closeCh, userRes, spurious, closes, abs>> /\ UNCHANGED monvars
+  /\ UNCHANGED <<isOpen, gen, mu, under, fault, rl, pend, closeCh, userRes, spurious, closes, abs>> /\ UNCHANGED monvars /\ UNCHANGED closeFails
 \* underlying Close() succeeds: publish the cause once, tell the monitor (non-blocking), clear isOpen
 CloseDone(p) ==
-  /\ pc[p] = "under" /\ mu = p
+  /\ pc[p] = "under" /\ mu = p /\ (p = USER => ~closeFails)
   /\ under' = "closed" /\ isOpen' = FALSE /\ mu' = FREE
   /\ closeCh' = [closeCh EXCEPT ![gen] = Append(@, CauseOf(p))]
   /\ pend' = [g \in Gens |-> pend[g] \/ rl[g] = "reading"]       \* every read blocked right now fails
@@ -90,14 +91,16 @@ CloseDone(p) ==
   /\ spurious' = (spurious \/ (p # USER /\ p # gen))
   /\ pc' = [pc EXCEPT ![p] = "out"]
   /\ IF p = USER THEN userRes' = "closed" /\ UNCHANGED rl ELSE rl' = [rl EXCEPT ![p] = "exited"] /\ UNCHANGED userRes
-  /\ UNCHANGED <<gen, tokS, tokG, fault, mon, attempts, wait, mlog, told, failsLeft, abs>>
+  /\ UNCHANGED <<gen, tokS, tokG, fault, mon, attempts, wait, mlog, told, failsLeft, closeFails, abs>>
 \* underlying Close() fails: drain the token, return the error, stay open
 CloseFail(p) ==
-  /\ AllowCloseFail /\ pc[p] = "under" /\ mu = p /\ p = USER
+  /\ AllowCloseFail /\ pc[p] = "under" /\ mu = p /\ p = USER /\ closeFails
   /\ IF CloseSignal = "shared" THEN tokS' = 0 /\ UNCHANGED tokG ELSE tokG' = [tokG EXCEPT ![gen] = 0] /\ UNCHANGED tokS
   /\ mu' = FREE /\ pc' = [pc EXCEPT ![p] = "out"] /\ userRes' = "closeerr"
-  /\ UNCHANGED <<isOpen, gen, under, fault, rl, pend, closeCh, spurious, closes, abs>> /\ UNCHANGED monvars
-UClose == MayStep /\ CloseEnter(USER) /\ abs' = L!AbsClose(abs)
+  /\ UNCHANGED <<isOpen, gen, under, fault, rl, pend, closeCh, spurious, closes, abs>> /\ UNCHANGED monvars /\ UNCHANGED closeFails
+UClose == MayStep /\ CloseEnter(USER) /\ abs' = L!AbsClose(abs) /\ closeFails' = FALSE
+\* the same call, but the underlying Close() is going to fail
+UCloseFail == AllowCloseFail /\ MayStep /\ CloseEnter(USER) /\ abs' = L!AbsCloseFail(abs) /\ closeFails' = TRUE
 
 \* environment: the stream ends ("eof"), breaks ("err"), or carries an undecodable frame ("badframe");
 \* k of the following underlying Open() calls will fail
@@ -107,18 +110,18 @@ Fault(g, kind, k) ==
   /\ (gen < MaxGen \/ k >= MaxAttempts \/ mon # "wait" \/ L!Cause(kind) = "nil")
   /\ fault' = [fault EXCEPT ![g] = kind] /\ failsLeft' = k
   /\ abs' = L!AbsFault(abs, kind, k)
-  /\ UNCHANGED <<isOpen, gen, mu, tokS, tokG, under, rl, pend, pc, closeCh, userRes, spurious, closes, monSig, mon, attempts, wait, mlog, told>>
+  /\ UNCHANGED <<isOpen, gen, mu, tokS, tokG, under, rl, pend, pc, closeCh, userRes, spurious, closes, monSig, mon, attempts, wait, mlog, told, closeFails>>
 \* read loop: the blocking read returns an error (stream fault, or the underlying transport was closed)
 RLErr(g) == /\ rl[g] = "reading" /\ (fault[g] \in {"eof", "err"} \/ under = "closed" \/ pend[g])
             /\ rl' = [rl EXCEPT ![g] = "goterr"] /\ pend' = [pend EXCEPT ![g] = FALSE]
-            /\ UNCHANGED <<isOpen, gen, mu, tokS, tokG, under, fault, pc, closeCh, userRes, spurious, closes, abs>> /\ UNCHANGED monvars
+            /\ UNCHANGED <<isOpen, gen, mu, tokS, tokG, under, fault, pc, closeCh, userRes, spurious, closes, abs>> /\ UNCHANGED monvars /\ UNCHANGED closeFails
 \* the goroutine started by Open reaches its first blocking read
 RLStart(g) == /\ rl[g] = "started" /\ rl' = [rl EXCEPT ![g] = "reading"]
-              /\ UNCHANGED <<isOpen, gen, mu, tokS, tokG, under, fault, pend, pc, closeCh, userRes, spurious, closes, abs>> /\ UNCHANGED monvars
+              /\ UNCHANGED <<isOpen, gen, mu, tokS, tokG, under, fault, pend, pc, closeCh, userRes, spurious, closes, abs>> /\ UNCHANGED monvars /\ UNCHANGED closeFails
 \* read loop: registry.Execute failed on a frame: straight to close(err), no look at the close signal
 RLBad(g) == /\ rl[g] = "reading" /\ fault[g] = "badframe" /\ under = "open" /\ g = gen
             /\ rl' = [rl EXCEPT ![g] = "willclose"]
-            /\ UNCHANGED <<isOpen, gen, mu, tokS, tokG, under, fault, pend, pc, closeCh, userRes, spurious, closes, abs>> /\ UNCHANGED monvars
+            /\ UNCHANGED <<isOpen, gen, mu, tokS, tokG, under, fault, pend, pc, closeCh, userRes, spurious, closes, abs>> /\ UNCHANGED monvars /\ UNCHANGED closeFails
 \* select { case <-closeSignal: return ; default: }
 RLCheck(g) ==
   /\ rl[g] = "goterr"
@@ -129,8 +132,8 @@ RLCheck(g) ==
        ELSE /\ UNCHANGED tokS
             /\ IF tokG[g] > 0 THEN tokG' = [tokG EXCEPT ![g] = 0] /\ rl' = [rl EXCEPT ![g] = "exited"]
                               ELSE tokG' = tokG /\ rl' = [rl EXCEPT ![g] = "willclose"]
-  /\ UNCHANGED <<isOpen, gen, mu, under, fault, pend, pc, closeCh, userRes, spurious, closes, abs>> /\ UNCHANGED monvars
-RLClose(g) == rl[g] = "willclose" /\ CloseEnter(g) /\ UNCHANGED abs
+  /\ UNCHANGED <<isOpen, gen, mu, under, fault, pend, pc, closeCh, userRes, spurious, closes, abs>> /\ UNCHANGED monvars /\ UNCHANGED closeFails
+RLClose(g) == rl[g] = "willclose" /\ CloseEnter(g) /\ UNCHANGED <<abs, closeFails>>
 
 \* ---- monitor runner ----
 MonTake == /\ mon = "wait" /\ monSig # <<>>
@@ -140,8 +143,8 @@ MonTake == /\ mon = "wait" /\ monSig # <<>>
                 ELSE /\ mlog' = Append(mlog, L!CB("uncleanly", 0, 0))
                      /\ mon' = (IF MaxAttempts > 0 THEN "sleep" ELSE "done") /\ wait' = InitialWait
            /\ attempts' = 0
-           /\ UNCHANGED lifevars /\ UNCHANGED <<closes, failsLeft, abs>>
-MonSleepDone == /\ mon = "sleep" /\ mon' = "open" /\ UNCHANGED lifevars /\ UNCHANGED <<monSig, attempts, wait, mlog, told, closes, failsLeft, abs>>
+           /\ UNCHANGED lifevars /\ UNCHANGED <<closes, failsLeft, closeFails, abs>>
+MonSleepDone == /\ mon = "sleep" /\ mon' = "open" /\ UNCHANGED lifevars /\ UNCHANGED <<monSig, attempts, wait, mlog, told, closes, failsLeft, closeFails, abs>>
 MonOpen == /\ mon = "open" /\ mu = FREE
            /\ IF failsLeft > 0
                 THEN /\ attempts' = attempts + 1 /\ failsLeft' = failsLeft - 1
@@ -153,11 +156,11 @@ MonOpen == /\ mon = "open" /\ mu = FREE
                      /\ mlog' = Append(mlog, L!CB("reopened", attempts, wait))
                      /\ mon' = "wait" /\ attempts' = 0 /\ UNCHANGED <<failsLeft, wait>>
                      /\ UNCHANGED <<mu, tokS, tokG, fault, pend, pc, closeCh, userRes, spurious>>
-           /\ UNCHANGED <<monSig, told, closes, abs>>
-Sys == \/ \E p \in Closers : ClosePush(p) \/ CloseDone(p)
+           /\ UNCHANGED <<monSig, told, closes, closeFails, abs>>
+Sys == \/ \E p \in Closers : ClosePush(p) \/ CloseDone(p) \/ CloseFail(p)
        \/ \E g \in Gens : RLStart(g) \/ RLErr(g) \/ RLBad(g) \/ RLCheck(g) \/ RLClose(g)
        \/ MonTake \/ MonSleepDone \/ MonOpen
-Env == \/ UOpen \/ UOpenFail \/ UClose \/ CloseFail(USER)
+Env == \/ UOpen \/ UOpenFail \/ UClose \/ UCloseFail
        \/ \E g \in Gens, kind \in L!Kinds, k \in 0..MaxAttempts : Fault(g, kind, k)
 Next == Env \/ Sys
 Spec == Init /\ [][Next]_vars /\ WF_vars(Sys)
@@ -182,5 +185,5 @@ Proj == [open |-> isOpen, gen |-> gen,
 QuietMatch == (Sequential /\ Quiet) =>
                  /\ Proj.open = abs.open /\ Proj.gen = abs.gen /\ Proj.cause = abs.cause
                  /\ Proj.alive = abs.alive /\ Proj.log = abs.log
-                 /\ (abs.res \in {"ok", "ALREADY_OPEN", "NOT_OPEN", "closed", "openerr"} => userRes = abs.res)
+                 /\ (abs.res \in {"ok", "ALREADY_OPEN", "NOT_OPEN", "closed", "openerr", "closeerr"} => userRes = abs.res)
 =============================================================================
